@@ -143,6 +143,11 @@ _PASS_BUILTINS = {
 def call(f, *a, **k):
     if not ctx.active:
         return f(*a, **k)
+    if any(isinstance(x, Merged) for x in a) or any(isinstance(x, Merged) for x in k.values()):
+        a = tuple(demerge(x) for x in a)
+        k = {kk: demerge(v) for kk, v in k.items()}
+    if isinstance(getattr(f, "__self__", None), Merged) and getattr(f, "__name__", "") != "get":
+        f = getattr(f.__self__.resolve(), f.__name__)
     if f is builtins.int:
         return models.model_int(*a, **k)
     if f is builtins.str:
@@ -238,10 +243,7 @@ def call(f, *a, **k):
                 a[0]
             ):
                 if name == "get":
-                    try:
-                        return getitem(slf, a[0])
-                    except KeyError:
-                        return a[1] if len(a) > 1 else None
+                    return _dict_lookup_tuple(slf, a[0], a[1] if len(a) > 1 else None)
                 raise Unmodelled(f"dict.{name} with symbolic tuple key")
         elif isinstance(slf, (list,)):
             if name in ("index", "count", "remove", "__contains__") and deep_sym(a):
@@ -283,6 +285,89 @@ def _plain(x):
 
 def _instrumented(mod):
     return mod == "schwifty" or mod.startswith("schwifty.") or mod.startswith("sx") or mod.startswith("harness") or mod.startswith("spec")
+
+
+class Merged:
+    """result of a look-up by symbolic key into a concrete table: mutually exclusive alternatives (cond, value).
+    Operations distribute over the alternatives and collapse when all alternatives agree, so a look-up among
+    thousands of registry rows does not fork unless the rows really differ in what is asked of them."""
+
+    def __init__(self, alts):
+        self.alts = alts
+
+    @staticmethod
+    def make(alts):
+        groups = []
+        for c, v in alts:
+            for g in groups:
+                if g[1] is v or (isinstance(v, (str, int, bool, type(None), tuple)) and type(g[1]) is type(v) and g[1] == v):
+                    g[0].append(c)
+                    break
+            else:
+                groups.append([[c], v])
+        if len(groups) == 1:
+            return groups[0][1]
+        return Merged([(z3.Or(cs) if len(cs) > 1 else cs[0], v) for cs, v in groups])
+
+    def fork_by(self, f):
+        """fork on the distinct results of f over the alternatives; the alternatives are narrowed (in place) to the
+        group taken, so later operations on this object do not revisit excluded rows"""
+        groups = []
+        for c, v in self.alts:
+            r = f(v)
+            for g in groups:
+                if g[0] is r or (isinstance(r, (str, int, bool, type(None), tuple)) and type(g[0]) is type(r) and g[0] == r):
+                    g[1].append((c, v))
+                    break
+            else:
+                groups.append((r, [(c, v)]))
+        if len(groups) > 1:
+            i = ctx.choose_n([z3.Or([c for c, _ in alts]) for _, alts in groups])
+        else:
+            i = 0
+        self.alts = groups[i][1]
+        return groups[i][0]
+
+    def resolve(self):
+        """fork on the distinct values"""
+        return self.fork_by(lambda v: v)
+
+    def map(self, f):
+        return Merged.make([(c, f(v)) for c, v in self.alts])
+
+    def __bool__(self):
+        return self.fork_by(bool)
+
+    def __getitem__(self, k):
+        return self.map(lambda v: getitem(v, k))
+
+    def get(self, k, d=None):
+        return self.map(lambda v: v.get(k, d))
+
+    def __len__(self):
+        return self.fork_by(len)
+
+    def __iter__(self):
+        return iter(self.resolve())
+
+    def __eq__(self, o):
+        r = self.map(lambda v: v == o)
+        return r.resolve() if isinstance(r, Merged) else r
+
+    def __ne__(self, o):
+        r = self.__eq__(o)
+        return not_(r)
+
+    __hash__ = None
+
+    def __getattr__(self, name):
+        if name.startswith("__"):
+            raise AttributeError(name)
+        return getattr(self.resolve(), name)
+
+
+def demerge(x):
+    return x.resolve() if isinstance(x, Merged) else x
 
 
 EXTERNAL_MODELS = {}
@@ -332,6 +417,10 @@ def fstring(parts):
 
 # ---------------------------------------------------------------- subscripts / containment / identity
 def getitem(obj, key):
+    if isinstance(obj, Merged):
+        return obj[key]
+    if isinstance(key, Merged):
+        key = key.resolve()
     if isinstance(obj, StrBase):
         if type(obj).__getitem__ is not StrBase.__getitem__:
             return obj.__getitem__(key)
@@ -385,17 +474,29 @@ def getitem(obj, key):
 def _dict_lookup(obj, key):
     n = len(key)
     ks = [kk for kk in obj if isinstance(kk, str) and len(kk) == n]
+    if n == 1 and ks:
+        vals = [obj[kk] for kk in ks]
+        q = key._dense().p[0]
+        if all(isinstance(v, str) and len(v) == 1 for v in vals) or all(isinstance(v, int) and not isinstance(v, bool) for v in vals):
+            # single-character table: merged affine-segment look-up instead of a fork per key
+            as_str = isinstance(vals[0], str)
+            segs = segments({ord(kk): (ord(v) if as_str else v) for kk, v in zip(ks, vals)})  # noqa: F405
+            found = in_ranges(q, [[lo, hi] for lo, hi, d in segs])  # noqa: F405
+            if not ctx.choose(found):
+                raise KeyError("<symbolic>")
+            e = prune_ite(seg_lookup(q, segs))  # noqa: F405
+            return mkstr([e]) if as_str else mkint(e)
     zs = []
     for kk in ks:
         r = key == kk
         zs.append(zb(r) if isinstance(r, SymBool) else z3.BoolVal(bool(r)))
-    i = ctx.choose_n(zs + [z3.Not(z3.Or(zs)) if zs else z3.BoolVal(True)])
-    if i == len(ks):
+    none = z3.Not(z3.Or(zs)) if zs else z3.BoolVal(True)
+    if not ks or not ctx.choose(z3.Not(none)):
         raise KeyError("<symbolic>")
-    return obj[ks[i]]
+    return Merged.make([(c, obj[kk]) for c, kk in zip(zs, ks)])
 
 
-def _dict_lookup_tuple(obj, key):
+def _tuple_key_conds(obj, key):
     cands, zs = [], []
     for kk in obj:
         if not (isinstance(kk, tuple) and len(kk) == len(key)):
@@ -403,25 +504,29 @@ def _dict_lookup_tuple(obj, key):
         conds, ok = [], True
         for a, b in zip(key, kk):
             a = a._s if isinstance(a, StrBase) else a
-            if isinstance(a, SymStr):
-                if not isinstance(b, str):
-                    ok = False
-                    break
-                r = a == b
-            else:
-                r = a == b
-            if r is False:
+            if isinstance(a, SymStr) and not isinstance(b, str):
+                ok = False
+                break
+            r = a == b
+            if r is False or r is NotImplemented:
                 ok = False
                 break
             if r is not True:
                 conds.append(zb(r))
         if ok:
             cands.append(kk)
-            zs.append(z3.And(conds) if conds else z3.BoolVal(True))
-    i = ctx.choose_n(zs + [z3.Not(z3.Or(zs)) if zs else z3.BoolVal(True)])
-    if i == len(cands):
-        raise KeyError("<symbolic>")
-    return obj[cands[i]]
+            zs.append(z3.And(conds) if len(conds) > 1 else (conds[0] if conds else z3.BoolVal(True)))
+    return cands, zs
+
+
+def _dict_lookup_tuple(obj, key, default=KeyError):
+    cands, zs = _tuple_key_conds(obj, key)
+    none = z3.Not(z3.Or(zs)) if zs else z3.BoolVal(True)
+    if default is KeyError:
+        if not cands or not ctx.choose(z3.Not(none)):
+            raise KeyError("<symbolic>")
+        return Merged.make([(c, obj[k]) for c, k in zip(zs, cands)])
+    return Merged.make([(c, obj[k]) for c, k in zip(zs, cands)] + [(none, default)])
 
 
 def contains(container, item):
@@ -460,6 +565,8 @@ def not_contains(container, item):
 
 
 def not_(x):
+    if isinstance(x, Merged):
+        x = bool(x)
     if isinstance(x, SymBool):
         return mkbool(z3.Not(x.e))
     if isinstance(x, SymInt):
@@ -468,6 +575,9 @@ def not_(x):
 
 
 def is_(a, b):
+    if isinstance(a, Merged):
+        r = a.map(lambda v: v is b)
+        return bool(r) if isinstance(r, Merged) else r
     if isinstance(a, SymBool) and isinstance(b, bool):
         return mkbool(a.e == b)
     if isinstance(b, SymBool) and isinstance(a, bool):
